@@ -1159,7 +1159,9 @@ def _apply_rolling(
 
     if values_are_times:
         if operation == "diff":
-            result = result.view("m8[ns]")
+            # differences come in the time unit of the input
+            unit = np.datetime_data(orig_dtype)[0]
+            result = result.view(f"m8[{unit}]")
         else:
             result = result.view(orig_dtype)
 
@@ -1582,7 +1584,8 @@ def _rolling_shift_or_diff_1d(
             if group_counts[key] >= window:
                 if want_shift:
                     out[i] = group_buffers[key, pos]
-                else:
+                elif not (is_null(val) or is_null(group_buffers[key, pos])):
+                    # a null operand (NaT is an ordinary integer here) leaves the null marker
                     out[i] = val - group_buffers[key, pos]
             else:
                 group_counts[key] += 1
